@@ -1,6 +1,6 @@
 """C06 — a value depends only on (parameters, point, time), not on history or batch"""
 from obligations import obl
-from harness import o_c06
+from harness import o_c06, o_c07rest
 
 E = 'EPV.Props.C06.Effects'
 B = 'EPV.Props.C05.Base'
@@ -19,7 +19,8 @@ PROP = dict(
         obl('C06.batch.model', B, ['EPV.C05.call_getElem?', 'EPV.C05.call_perm', 'EPV.C05.call_append',
                                    'EPV.C05.call_replicate', 'EPV.C05.call_value_batch_independent']),
         # the real code
-        obl('C06.batch.real', oracle=[o_c06.batch, o_c06.eppiston_batch, o_c06.ie_batch, o_c06.r2d_fan_order, o_c06.guderley_batch]),
+        obl('C06.batch.real', oracle=[o_c06.batch, o_c06.eppiston_batch, o_c06.ie_batch, o_c06.r2d_fan_order, o_c06.guderley_batch,
+                                      o_c07rest.default_dicts_do_not_leak]),
         obl('C06.history.real', oracle=o_c06.history),
         obl('C06.shared_solver.real', oracle=o_c06.shared_solver),
     ],
